@@ -11,7 +11,8 @@
    Peer leecher, log = list of callbacks:
      - window: (sum of RequestChunks.maxChunks) never exceeds (number of IsProcessed = true
        answers) + ParallelChunksDownload;
-     - no RequestChunks in a routine run whose Suspend() returned true;
+     - a RequestChunks is made only after Suspend() has been asked in the same routine run and
+       has answered false (so none while suspended, and none without asking);
      - after a Done() = true, and after an external Terminate() has returned, nothing is called
        any more (no Done, IsProcessed, Suspend, RequestChunks). *)
 From Coq Require Import NArith List Bool.
@@ -77,11 +78,11 @@ Definition base_spec_ok (log : list (bop * list bev)) : bool := bmon_run bmon_in
 Record pmon := mkPM {
   w_req : N;               (* sum of RequestChunks.maxChunks seen *)
   w_proc : N;              (* number of IsProcessed = true answers seen *)
-  w_susp : bool;           (* Suspend() = true was seen in the current run *)
+  w_susp : bool;           (* no Suspend() = false answer yet in the current run *)
   w_fin : bool             (* a Done() = true was seen *)
 }.
 
-Definition pmon_init : pmon := mkPM 0 0 false false.
+Definition pmon_init : pmon := mkPM 0 0 true false.
 
 Definition pmon_ev (par : N) (m : pmon) (e : pev) : option pmon :=
   match e with
@@ -89,7 +90,7 @@ Definition pmon_ev (par : N) (m : pmon) (e : pev) : option pmon :=
   | _ =>
     if w_fin m then None
     else match e with
-         | PDone b => Some (mkPM (w_req m) (w_proc m) false b)
+         | PDone b => Some (mkPM (w_req m) (w_proc m) true b)
          | PIsProc _ b => Some (mkPM (w_req m) (if b then w_proc m + 1 else w_proc m)%N (w_susp m) false)
          | PSusp b => Some (mkPM (w_req m) (w_proc m) b false)
          | PReq k =>
